@@ -107,7 +107,7 @@ def run_rtree(run, focus):
         run.gen("sim_%d_%d_%s" % (a, b, pool), SPEC, "RTreeGen", cfg, p, workers=1, timeout=1200,
                 simulate="num=%d" % num, depth=depth)
         walks += vlib.read_ndjson(p)
-    nrand = 24 if quick else 600
+    nrand = 30 if quick else 600
     run.bounds = {"mc": mcs, "cover": gens, "simulate": sims, "random_histories": nrand}
     # ---- replay on the real code
     allcases = cover + walks
